@@ -84,6 +84,10 @@ CHECKS = {
          "DESIGN.md §3 C02",
          "For n in {4,6} (thorough 4,5,6): every crash set below 20% of stake x pre-stabilisation prefix {none, one node isolated, partition 2|n-2, all traffic held back} released after 3.2 s, and per-node in/out link speed assignments {1 ms, 100/250 ms}: in each 16 s virtual run every live node's finalized slot must advance as expected after stabilisation, no node task may die, crashed leaders' windows must be skipped without blocking later ones, every slot of a correct leader in a window starting after stabilisation must be finalized (never skip-certified), by a fast-finalization certificate when >= 80% of stake is responsive.",
          "Horizon-bounded (16 s virtual, ~10 windows); pre-stabilisation faults delay messages, they do not drop them (loss is only recovered through the 10 s standstill path); Byzantine validators are silent in this check (noisy ones are C10's)."),
+ "C10": ("fault_enumeration", "exhaustive enumeration of a hostile-input menu x protocol phases (thorough: ordered pairs) against real Alpenglow nodes in a paused, seeded, single-threaded runtime; oracle = per-simulation panic capture + the victim still votes, answers repair requests and finalizes like the undisturbed run", "E4",
+         "DESIGN.md §3 C10",
+         "Four real nodes run consensus; the fifth validator (19% stake, leader of its own windows and of the last window of the slot space) is the attacker. Each menu item is injected on the victim's interfaces at each phase: attacker-signed votes of all kinds at edge slots (0, current, 2-epoch boundary, u64::MAX), slashable pairs, unknown signers, replayed / mutated certificates, validly signed malformed blocks (parent in same / later / max slot, no parent, two switches, undecodable or absurd transaction lists, oversize transactions) for its next and a far-future window, contradictory last flags in both orders, conflicting slices, contradictions in the last window of the slot space, slice index 1023, raw slices with odd / zero / over-long / mixed shard sizes and non-codeword coding shreds under a validly signed root, tag-flipped / corrupted genuine shreds, repair requests (unknown sender, boundary indices, unknown blocks), unsolicited / mismatched repair responses, transactions of 0/512/513/1480 bytes and floods, garbage on all five interfaces; plus the scripted hand-over equivocation (previous leader gives the next leader a different block). No task may panic; the victim must keep voting, answering repair requests and finalizing.",
+         "Bounded by the menu (about 50 structured items x 2-4 phases; pairs only in thorough), not all byte strings (C19 covers the decoders); 12 s virtual time per run."),
 }
 
 NOT_YET = {}
